@@ -136,7 +136,7 @@ class ReuseHistory(Engine):
         toggles = [arg for arg in base["extra_args"] if arg in ("--clusterhmmer", "--fullhmmer", "--pfam2go")]
         scenario: Dict[str, Any] = {"records": base["records"], "hits": base["hits"], "domain_hits": base["domain_hits"],
                                     "domain_lengths": base["domain_lengths"], "fungi": rng.random() < 0.25,
-                                    "toggles": toggles}
+                                    "toggles": toggles, "sideload_cli": base["sideload_cli"]}
         # TTA only looks at regions of GC rich records; plant some TTA codons in frame
         for record in scenario["records"]:
             seq = list(record["seq"])
@@ -270,6 +270,8 @@ class _History:
         args += option_args(step["options"], sc["fungi"])
         if not step.get("toggles_off"):
             args += list(sc.get("toggles", []))
+        if fresh_input:
+            args += list(sc.get("sideload_cli", []))
         if sc.get("sideload") and fresh_input:
             args += ["--sideload", os.path.join(work, "sideload.json")]
         inv = {"args": args, "salt": step.get("salt", 0), "hits": sc["hits"], "domain_hits": sc["domain_hits"],
@@ -610,28 +612,12 @@ class _History:
 
     def _faulted(self, work: str, outdir: str, step: Dict[str, Any], state: Dict[str, Any]) -> None:
         """ a failed invocation in the middle of the history: the next one must find the results as they were """
-        from sim.engines.write_faults import Injector
+        from sim.engines.write_faults import arm_next_write
         spec = step["fault"]
         before = self._file_bytes(outdir)
 
         def hook(invocation: Dict[str, Any]) -> None:
-            from antismash.common import serialiser
-            original = serialiser.AntismashResults.write_to_file
-
-            def armed_write(self_results: Any, handle: Any) -> None:
-                injector = Injector()
-                injector.install(self_results)
-                injector.reset(None)
-                scratch = str(handle) + ".dryrun"
-                original(self_results, scratch)
-                os.unlink(scratch)
-                sites = sorted(site for site in injector.counts if spec["type"] == "call" or site.endswith(".to_json"))
-                site = sites[spec["site_rank"] % len(sites)]
-                fault = {"type": spec["type"], "site": site, "index": spec["index_rank"] % injector.counts[site],
-                         "kind": spec["kind"], "poison": spec["poison"], "depth": spec["depth"]}
-                injector.reset(fault)
-                original(self_results, handle)
-            serialiser.AntismashResults.write_to_file = armed_write
+            arm_next_write(invocation, spec)
         result = self.invocation(work, outdir, step, None, hooks=hook)
         self.trace.append(["faulted", result["status"]])
         self.res.fault("failed_invocation")
